@@ -40,6 +40,16 @@ func c11Plan(p *PRNG, cfg Config, tier string) Plan {
 	if f, ok := extraHostile["avs"]; ok && p.Chance(1, 2) {
 		plan = f(p, cfg, plan)
 	}
+	// registry operations (client chains, tokens with well- and ill-formed oracle info) and parameter
+	// updates of every module, as in the C09/C10 workload
+	for i := range plan.Blocks {
+		if p.Chance(1, 3) {
+			plan.Blocks[i].Ops = append(plan.Blocks[i].Ops, registryOp(p))
+		}
+		if f, ok := extraHostile["params"]; ok && p.Chance(1, 4) {
+			plan.Blocks[i] = f(p, cfg, Plan{Blocks: []Block{plan.Blocks[i]}}).Blocks[0]
+		}
+	}
 	plan = Epilogue(plan, cfg, int(cfg.UnbondEpochs)+2)
 	// a benign transfer must still work at the very end
 	plan.Blocks = append(plan.Blocks, Block{DtNs: 1e9, Ops: []Op{{K: "send", A: 0, C: 1, Amt: "=1"}}})
